@@ -15,7 +15,11 @@ panic.c, backtrace.c under ASan/UBSan.
   2045/2046/2047 with special octets first/last and worst-case stuffing, and the first rejected
   length 2048 followed by two frames.
 * Resync scenarios: [noise] [over-long frame of 2048..70000 payload octets, injected or sent through
-  the real transmitter] [0..3 noise octets] F1 [0..1 noise octet] F2 F3 - complete product.
+  the real transmitter] [0..3 noise octets; 0..1 after the 65000/70000-octet frames] F1 [0..1 noise octet] F2 F3 - complete product over 7 sets
+  of following frames: regular DLCIs, the echo DLCI 128 (echo pulled and judged on the wire, not fed
+  back), longest deliverable payload (2047), DLCIs with an escaped address octet, a second
+  over-long frame.  A payload of >= 2048 octets must never reach a handler; a panic / abort /
+  sanitizer death is reported as C06:dlci=0x..:after-overlong:crash.
 * DLCI 128 (built-in echo, handler = sercomm_sendmsg): every payload of length 0..2; the echo is
   pulled and judged on the wire, not fed back.
 """
@@ -30,7 +34,7 @@ from vlib.errors import HarnessError
 LEVEL = "model_checking"
 _exe = None
 # sanitizer reports abort(): the driver's SIGABRT handler then names the case it was executing
-_SAN_ENV = {"ASAN_OPTIONS": "detect_leaks=0:abort_on_error=1",
+_SAN_ENV = {"ASAN_OPTIONS": "detect_leaks=0:abort_on_error=1:quarantine_size_mb=16",   # small quarantine: 10x less page-fault time
             "UBSAN_OPTIONS": "print_stacktrace=1:halt_on_error=1:abort_on_error=1"}
 
 D_ALL = "4,5,9,10,127"
@@ -58,7 +62,8 @@ THOROUGH_BFS = [
     ("d2-p2-q2-ol70000", QUICK_BFS[3][1], 3),
     ("d3-p3-q4", "depth=60 dlci=4,5,9 pay=0,1,7 noise=%s ol=2049 maxq=4 cap=3000000" % NOISE, 60),
 ]
-RESYNC_PARTS = 32
+RESYNC_PARTS = 64
+RESYNC_FRAME_SETS = 7
 
 
 def _build(b):
@@ -99,9 +104,16 @@ def _job(job):
 
 
 def _crash_key(token):
-    """Class of a crash: the DLCI of the last send before it, if any."""
-    m = re.findall(r"(?:^|,)[sS](\d+)\.", token or "")
-    return "C06:dlci=0x%02x:crash" % int(m[-1]) if m else "C06:crash"
+    """Class of a crash (panic / abort / sanitizer death): the DLCI of the last send before it, and whether an
+    over-long frame preceded that send."""
+    toks = (token or "").split(",")
+    sends = [(i, int(m.group(1))) for i, t in enumerate(toks) for m in [re.match(r"[sS](\d+)\.", t)] if m]
+    longs = [i for i, t in enumerate(toks)
+             if re.match(r"o\d+$", t) or (t.startswith("S") and len(t.split(".")) > 1 and t.split(".")[1].isdigit() and int(t.split(".")[1]) >= 2048)]
+    if not sends:
+        return "C06:overlong:crash" if longs else "C06:crash"
+    i, d = sends[-1]
+    return "C06:dlci=0x%02x:%scrash" % (d, "after-overlong:" if any(j < i for j in longs) else "")
 
 
 def _report(ctx, r):
@@ -138,7 +150,8 @@ def run(ctx):
         sums = ("states", "transitions", "bad_transitions", "events_replayed", "pull_transitions", "send_transitions",
                 "noise_transitions", "overlong_transitions", "states_out_of_sync", "states_mid_frame")
         other = ("transfers", "special_tuples", "boundary_cases", "resync_scenarios", "echo_cases", "frames", "exact_deliveries",
-                 "tolerated_deliveries", "wire_octets", "escapes", "noise_octets", "overlong_frames", "dlcis")
+                 "tolerated_deliveries", "wire_octets", "escapes", "noise_octets", "overlong_frames", "dlcis",
+                 "echoes_queued", "scenarios_abandoned_in_window")
         for k in sums + other:
             c[k] = 0
         bfs, complete, depth = {}, True, 0
@@ -165,7 +178,7 @@ def run(ctx):
         c["traces_validated_against_impl"] = c["transitions"]
         per_dlci = 1 + 256 + 65536 + sum(7 ** n for n in range(3, maxlen + 1)) + 48 + 4 * 3
         c["transfers_expected"] = 128 * per_dlci
-        c["resync_scenarios_expected"] = 10 * 2 * 3 * (1 + 5 + 25 + 125) * 6
+        c["resync_scenarios_expected"] = (8 * 156 + 2 * 6) * 2 * RESYNC_FRAME_SETS * 6
         # exhaustive = every stated finite space was enumerated completely (a BFS run that stops at its stated depth
         # bound is complete within that bound); cases cut short by a violation do not count as a hole
         c["exhaustive"] = bool(complete and len(bfs) == len(cfgs) and c["dlcis"] == 128 and c["transfers"] == c["transfers_expected"]
@@ -183,7 +196,8 @@ def run(ctx):
             "over-long frame is enumerated by the resync scenarios (0..3 octets from {00,7D,05,41,03})",
             "wire format judged the HDLC way: 0x7D then octet xor 0x20; the control octet's value is not judged",
             "an over-long frame (payload >= 2048) must not reach a handler; from it until the end of the next regular frame deliveries "
-            "are not judged; the frame after that must be exact again, also when noise octets precede it",
+            "are not judged (except: never >= 2048 octets, never a crash, and a frame for the echo DLCI that is echoed inside this "
+            "window must be echoed exactly); the frame after that must be exact again, also when noise octets precede it",
             "handlers registered on DLCI 0..127; DLCI 128 keeps sercomm_init()'s echo handler; sercomm_alloc_msgb(0) is outside the API "
             "(msgb_alloc_headroom asserts size > headroom), empty payloads are allocated with size 1",
         ]
